@@ -43,6 +43,20 @@ def run(ctx) -> None:
                    'stored heat = rock + fluid; reservoir mass = rock + fluid')
     ctx.rule('G3', 'producible heat = available heat x RecoverableHeat(T) and every return value of RecoverableHeat lies in [0, 1]')
     ctx.rule('G4', 'the utilisation-efficiency table is a function table: temperatures strictly increasing, efficiencies in [0, 1], equal length')
+    ctx.rule('G5', '"inputs written in other listed units give the same results": HIP-RA code reads inputs whose unit label goes stale in '
+                   'ConvertUnits through .value, never through .quantity() (shared with C06 U14)')
+    ctx.rule('G6', 'no magnitude heuristic with its threshold inside the accepted range rewrites a HIP-RA input (shared rule U4)')
+    from rules.c06 import check_u14
+    from rules.u4 import check_heuristics
+    check_u14(ctx, 'G5', only_classes={'HIP_RA_X', 'HIP_RA'})
+    uses = [c for fn in repo.all_functions() if fn.cls is not None and fn.cls.name in ('HIP_RA_X', 'HIP_RA') for c in ast.walk(fn.node)
+            if isinstance(c, ast.Attribute) and c.attr == 'value' and isinstance(c.value, ast.Attribute) and isinstance(c.value.value, ast.Name)
+            and c.value.value.id == 'self']
+    ctx.floor('G5', len(uses), 40, 'self.<param>.value reads in the HIP-RA classes')
+    ctx.ok('G5', 'HIP_RA/inputs-read-through-.value', 'src/hip_ra_x/hip_ra_x.py', f'{len(uses)} reads of self.<param>.value; .quantity() reads of '
+                                                                              f'stale-label inputs are reported individually')
+    check_heuristics(ctx, 'G6', only_classes={'HIP_RA_X', 'HIP_RA'})
+    ctx.ok('G6', 'HIP_RA/no-heuristic-inside-range', 'src/hip_ra_x/hip_ra_x.py', 'heuristic sites in the HIP-RA classes are reported individually')
     f = repo.method('HIP_RA_X', 'Calculate')
     rel = f.module.rel
     body = _try_body(f)
